@@ -260,7 +260,9 @@ class GroupWorld(ClientWorld):
                 self.viol("fencing", "join-written-while-commit-in-flight",
                           "a JoinGroup was written while an OffsetCommit of the previous generation is unanswered")
             # the previous generation's consumers have committed their progress, unless a commit was rejected
-            if c16 and self.last_assigned and not self.commit_rejected and self.cfg.get("commit_every_n", 1):
+            # (nor after an eviction answer: the coordinator would refuse the commit, the consumers are just stopped)
+            if c16 and self.last_assigned and not self.commit_rejected and not self.evicted and \
+                    self.cfg.get("commit_every_n", 1):
                 for t, parts in self.last_assigned.items():
                     for pn in parts:
                         got = self.delivered.get((t, pn), [])
